@@ -4,8 +4,8 @@
 usage: try_seeded.py <dir with patch.diff/demo.py/meta.json> [--all]
  1. in a scratch worktree of /repo (under /tmp, removed afterwards): the patch applies, the unedited
     suite passes, demo.py fails with the patch and passes without it;
- 2. the patch is applied to /repo, the check of the property (or all checks with --all) is run,
-    and the patch is undone straight afterwards (git -C /repo checkout -- .).
+ 2. the check of the property (or all checks with --all) is run against that patched scratch worktree
+    (VERIF_REPO=<worktree>, evidence and replays to a scratch directory VERIF_OUT): /repo is never modified.
 Prints one summary line per check."""
 import json
 import os
@@ -30,8 +30,10 @@ def sh(cmd, cwd=None, env=None, timeout=1800):
 
 wt = tempfile.mkdtemp(prefix="seedwt-", dir="/tmp")
 os.rmdir(wt)
+outdir = tempfile.mkdtemp(prefix="seedout-", dir="/tmp")
 rc, out = sh(["git", "-C", "/repo", "worktree", "add", "-q", "--detach", wt, "HEAD"])
 res = {"property": pid, "dir": d}
+detect = {}
 try:
     env = dict(os.environ, PYTHONPATH=wt, PYTHONDONTWRITEBYTECODE="1")
     rc, out = sh([PY, demo], cwd=wt, env=env)
@@ -44,26 +46,33 @@ try:
     rc, out = sh([PY, demo], cwd=wt, env=env)
     res["demo_patched_fails"] = rc != 0
     res["demo_tail"] = out.strip().split("\n")[-1][:200] if out.strip() else ""
+    print(json.dumps(res, indent=1))
+    # the checks run against the patched scratch worktree (VERIF_REPO), evidence and replays go to a scratch
+    # directory (VERIF_OUT): /repo and the committed evidence are never touched
+    ids = [pid]
+    if run_all:
+        ids = [c["property_id"] for c in json.load(open("/verif/MANIFEST.json"))["checks"]]
+    cenv = dict(os.environ, VERIF_REPO=wt, VERIF_OUT=outdir, PYTHONDONTWRITEBYTECODE="1")
+    for i in ids:
+        rc, out = sh(["./check", i], cwd="/verif", env=cenv)
+        lines = [l for l in out.split("\n") if l.startswith("VIOLATION") or l.startswith(i + ":")]
+        what = ""
+        for l in lines:
+            if l.startswith("VIOLATION") and "replay=" in l:
+                rp = l.split("replay=")[1].split()[0]
+                try:
+                    r = json.load(open(rp))
+                    what = (r.get("what") or "; ".join(r.get("broken_obligations", []))[:300] or
+                            "; ".join(b["what"] for b in r.get("broken_correspondence", [])[:2]))[:400]
+                except Exception:
+                    pass
+        detect[i] = {"exit": rc, "lines": [l.replace(outdir, "<scratch>") for l in lines], "what": what}
+        print(i, "exit", rc, " | ".join(l[:160].replace(outdir, "<scratch>") for l in lines))
+        if what:
+            print("   ", what[:300])
 finally:
     sh(["git", "-C", "/repo", "worktree", "remove", "--force", wt])
     shutil.rmtree(wt, ignore_errors=True)
-print(json.dumps(res, indent=1))
-
-ids = [pid]
-if run_all:
-    ids = [c["property_id"] for c in json.load(open("/verif/MANIFEST.json"))["checks"]]
-rc, out = sh(["git", "-C", "/repo", "status", "--short"])
-if out.strip():
-    sys.exit("refusing: /repo has uncommitted changes:\n" + out)
-sh(["git", "-C", "/repo", "apply", patch])
-detect = {}
-try:
-    for i in ids:
-        rc, out = sh(["./check", i], cwd="/verif")
-        lines = [l for l in out.split("\n") if l.startswith("VIOLATION") or l.startswith(i + ":")]
-        detect[i] = {"exit": rc, "lines": lines}
-        print(i, "exit", rc, " | ".join(l[:160] for l in lines))
-finally:
-    sh(["git", "-C", "/repo", "checkout", "--", "."])
+    shutil.rmtree(outdir, ignore_errors=True)
 res["checks"] = detect
 json.dump(res, open(os.path.join(d, "confirmation.json"), "w"), indent=1)
